@@ -555,6 +555,12 @@ def run_shard(spec):
             if len(res["samples"]) < 2:
                 res["samples"].append({"mode": case["mode"], "A": case["A"], "B": case["B"] if case["mode"] == "pair" else None})
         res["violations"].extend(mon.viol)
+    from rt import footprint_reuse
+
+    v, c = footprint_reuse.run(spec["seed"] * 137 + spec["shard"], sample=True)
+    res["violations"].extend(v)
+    for k, n in c.items():
+        res["counters"][k] = res["counters"].get(k, 0) + n
     if _WRAPPED.get("bad"):
         cls, rep = _WRAPPED["bad"][0]
         res["violations"].append({"key": None, "what": f"[wrapper] {cls}.uniformPointInner returned {rep}", "witness": {"check": "wrapper"}})
@@ -562,6 +568,10 @@ def run_shard(spec):
 
 
 def replay(w):
+    if w.get("check") == "footprint-reuse":
+        from rt import footprint_reuse
+
+        return footprint_reuse.run(w["seed"], sample=True)[0]
     if w.get("check") == "wrapper":
         return []
     case = {k: w[k] for k in w if k not in ("check", "op", "key")}
